@@ -114,6 +114,10 @@ func Ret[T any](s string, idx int) T { var z T; return z }
 func NthArg[T any](s string, n int, i int) T { var z T; return z }
 func NthRet[T any](s string, n int, i int) T { var z T; return z }
 
+// ReturnedBy: some recorded call matching s whose first argument (the receiver
+// of a method) is a returned v as its i-th result.
+func ReturnedBy[A, T any](s string, i int, a A, v T) bool { return false }
+
 // DynPtrTo(ret, content): ret holds a non-nil pointer to the dynamic type of content.
 func DynPtrTo(ret any, content any) bool { return false }
 
